@@ -55,8 +55,8 @@ def main():
     shutil.copy(demo, os.path.join(d, "demo.py"))
     head = sh("git -C /repo rev-parse --short HEAD").stdout.strip()
     json.dump({"id": new_id, "property": prop, "summary": m.get("summary"), "needs": m.get("needs"),
-               "files": m.get("files"), "round": 2,
-               "origin": "fresh sub-agent given only the property text (and one-line summaries of the round-1 changes "
+               "files": m.get("files"), "round": 3 if out.endswith("out3") else 2,
+               "origin": "fresh sub-agent given only the property text (and one-line summaries of the earlier rounds' changes "
                          "to avoid) and a scratch worktree of /repo (nothing from /verif)",
                "confirmed": {"how": "harness/seed_confirm.py: scratch worktree %s at /repo main %s; git apply patch.diff; "
                                     "full pytest suite; demo.py with and without the change" % (wt, head),
